@@ -7,7 +7,7 @@ NaN discipline: NaN results of arithmetic are compared by class, everything else
 Trap kind: V8 does not tell NaN from out-of-range; the expected code is derived from the operand.
 """
 import os, shutil
-from vlib import env, e2e, gen, wasm, directed, diff, progs
+from vlib import env, e2e, gen, wasm, directed, diff, progs, exhaust
 from vlib.wasm import *
 
 LEVEL = 'exploration'
@@ -86,6 +86,10 @@ def main(chk):
     if not quick:
         builds += [('gcc-O0', 'gcc', ['-O0']), ('gcc-O3', 'gcc', ['-O3']), ('clang-O0', 'clang', ['-O0']), ('gcc-O2-gnu89', 'gcc', ['-O2', '-std=gnu89'])]
     env.pmap(lambda bl: run_directed(chk, w2c2, bl[0], bl[1], bl[2], env.rng('c02-dir')), builds)
+
+    # in-module sweeps: every float / conversion opcode over all 2^32 patterns of a 32-bit operand (thorough) / seeded lattices (quick)
+    exhaust.run_sweeps(chk, w2c2, 'C02', [e for e in exhaust.sweep_ops() if e[1] in FLOAT_OPS], [(t, c, f, []) for t, c, f in builds],
+                       slow_builds=('gcc-O0', 'clang-O0'))
 
     prof = gen.Profile(nan_canon=True, w_trace=0.3, w_control=0.6)
     prof.ops = set(wasm.NUMERIC)
